@@ -613,6 +613,10 @@ class Exec:
                 if ga is not None:
                     return self.call_function(st, ga, [v, VStr(name)], {})
                 return self.raise_(st, "AttributeError", f"{o.cls}.{name}")
+            from . import npmodel
+
+            if isinstance(o, npmodel.ArrO):
+                return npmodel.getattr_(self, st, v, name)
             return [Res(st, VBuiltin("obj." + name, v))]
         if isinstance(v, VChild):
             return self.I.getattr(st, v, name)
